@@ -148,3 +148,21 @@ class VLoop(asyncio.BaseEventLoop):
         self._scheduled.clear()
         if not self.is_closed():
             self.close()
+
+
+class SharedVLoop(VLoop):
+    """A VLoop whose clock is a cell shared with other loops (E7: several
+    server processes over one filesystem live in the same virtual time)."""
+
+    def __init__(self, clock: list) -> None:
+        self._clock = clock
+        super().__init__()
+
+    @property
+    def _vtime(self) -> float:
+        return self._clock[0]
+
+    @_vtime.setter
+    def _vtime(self, v: float) -> None:
+        if v > self._clock[0]:
+            self._clock[0] = v
